@@ -342,21 +342,22 @@ def cli4(ctx, c):
                     src = _s.setdefault("src", r)
                     return list(_l) if r is src else Desc("%r.list_files()" % r)
                 events, notes = [], []
-                end = run_concrete(body_without_doc(flat), env, events, notes, hooks={("*", "list_files"): listing_hook}, resolver=None)
+                funcs = {n_: f_.node for n_, f_ in fn0.module.funcs.items() if n_ not in ("main", "parse_arguments")} if hasattr(fn0.module, "funcs") else {}
+                end = run_concrete(body_without_doc(flat), env, events, notes, hooks={("*", "list_files"): listing_hook}, resolver=None, functions=funcs)
                 n_eval += 1
                 site = "file_util --%s%s%s" % (sw, "" if files is None else " --files " + " ".join(files), " --append" if append else "")
                 vfs = [e[3] for e in events if e[0] == "new" and e[1] == "VirtualFile"]
                 target = next((o for o in vfs if any(isinstance(a, Obj) and "target.img" in [x for x in getattr(a, "args", [])] for a in getattr(o, "args", []))), None)
                 problems = []
                 if end and end.startswith("raise"):
-                    problems.append("the run ends in %s" % end)
+                    problems.append(("end", "the run ends in %s" % end))
                 if target is None:
-                    problems.append("no VirtualFile is built on the path given with --%s" % sw)
+                    problems.append(("kind", "no VirtualFile is built on the path given with --%s" % sw))
                 else:
                     kindv = ctx.env.get("VirtualFileType.%s" % kind)
                     got_kind = [v for v in list(getattr(target, "args", [])) + list(target.attrs.values()) if v in [ctx.env.get("VirtualFileType.%s" % k) for k in KINDS]]
                     if got_kind[:1] != [kindv]:
-                        problems.append("the target of --%s is built as container kind %s" % (sw, got_kind[:1]))
+                        problems.append(("kind", "the target of --%s is built as container kind %s" % (sw, got_kind[:1])))
                 if not problems:
                     # identity-based call sequence on the target
                     adds, saves, opens = [], [], 0
@@ -371,26 +372,58 @@ def cli4(ctx, c):
                     first_add = next((i for i, e in enumerate(events) if e[0] == "call" and len(e) > 6 and e[6] is target and e[2] == "add_coco_file"), None)
                     first_open = next((i for i, e in enumerate(events) if e[0] == "call" and len(e) > 6 and e[6] is target and e[2] == "open_virtual_file"), None)
                     if opens != 1 or (first_add is not None and first_open is not None and first_open > first_add):
-                        problems.append("the target is opened %d time(s)%s" % (opens, " after files were added" if opens else ""))
+                        problems.append(("open", "the target is opened %d time(s)%s" % (opens, " after files were added" if opens else "")))
                     want_objs = [listing[i] for i in want]
                     if [id(x) for x in adds] != [id(x) for x in want_objs]:
-                        problems.append("files added: %s; selected by the switches: %s" % ([show_(x) for x in adds], [show_(x) for x in want_objs]))
+                        problems.append(("selection", "files added: %s; selected by the switches: %s" % ([show_(x) for x in adds], [show_(x) for x in want_objs])))
                     if len(saves) != 1:
-                        problems.append("save_virtual_file is called %d time(s)" % len(saves))
+                        problems.append(("save", "save_virtual_file is called %d time(s)" % len(saves)))
                     else:
                         am = saves[0][5].get("append_mode", saves[0][4][0] if saves[0][4] else None)
                         if am is not append:
-                            problems.append("save_virtual_file(append_mode=%r) with --append %s" % (am, "given" if append else "absent"))
+                            problems.append(("save", "save_virtual_file(append_mode=%r) with --append %s" % (am, "given" if append else "absent")))
                         last_add = max([i for i, e in enumerate(events) if e[0] == "call" and len(e) > 6 and e[6] is target and e[2] == "add_coco_file"] or [-1])
                         if events.index(saves[0]) < last_add:
-                            problems.append("the image is saved before all files are added")
+                            problems.append(("save", "the image is saved before all files are added"))
                 if not problems:
                     c.ok(site, "target of kind %s, opened, %d file(s) added in listing order, saved once" % (kind, len(want)), where)
                 elif notes:
-                    c.undecided(site, "not-evaluable", "%s; not evaluated: %s" % (problems[0][:80], "; ".join(sorted(set(notes)))[:100]), where)
+                    c.undecided(site, "not-evaluable", "%s; not evaluated: %s" % (problems[0][1][:80], "; ".join(sorted(set(notes)))[:100]), where)
                 else:
-                    c.finding("file_util --%s:%s" % (sw, "all files" if files is None else "--files"), problems[0][:120],
-                              "%s: %s" % (site, "; ".join(problems)), where)
+                    for aspect in sorted({a_ for a_, _ in problems}):
+                        texts = [t_ for a_, t_ in problems if a_ == aspect]
+                        c.finding("file_util --%s:%s:%s" % (sw, aspect, "all files" if files is None else "--files"), texts[0][:120], "%s: %s" % (site, "; ".join(texts)), where)
+    # --to_bin refuses an image that holds more than one file, whatever --files selects
+    for files in (None, ["beta"], ["nosuch"]):
+        listing = []
+        for i_, nm in enumerate(names):
+            o = Obj("CoCoFile", label="<file %d>" % i_)
+            o.attrs["name"] = nm
+            listing.append(o)
+        env = dict(ctx.env)
+        for cn in ("VirtualFile", "SourceFile"):
+            env[cn] = ClsRef(cn)
+        env.update({"args.host_filename": "src.img", "args.list": False, "args.to_cas": None, "args.to_dsk": None, "args.to_bin": "target.img",
+                    "args.files": files, "args.append": False})
+        state = {}
+
+        def listing_hook2(r, avals, _l=listing, _s=state):
+            src = _s.setdefault("src", r)
+            return list(_l) if r is src else Desc("%r.list_files()" % r)
+        events, notes = [], []
+        funcs = {n_: f_.node for n_, f_ in fn0.module.funcs.items() if n_ not in ("main", "parse_arguments")} if hasattr(fn0.module, "funcs") else {}
+        end = run_concrete(body_without_doc(flat), env, events, notes, hooks={("*", "list_files"): listing_hook2}, functions=funcs)
+        n_eval += 1
+        saves = [e for e in events if e[0] == "call" and e[2] == "save_virtual_file"]
+        site = "file_util --to_bin (3 files on the image)%s" % ("" if files is None else " --files " + " ".join(files))
+        if not saves and end == "exit":
+            c.ok(site, "refused: exits without saving", where)
+        elif notes:
+            c.undecided(site, "not-evaluable", "; ".join(sorted(set(notes)))[:100], where)
+        else:
+            c.finding("file_util --to_bin:several files", "an image holding three files is not refused%s" % ("" if files is None else " when --files names one"),
+                      "%s: %s; --to_bin writes a raw binary, which holds one file, and must refuse an image that holds more than one" %
+                      (site, "the target is saved" if saves else "the run ends with %s" % end), where)
     c.ok("file_util.main", "%d configurations evaluated" % n_eval, where, nontrivial=False)
 
 
@@ -407,7 +440,7 @@ def cli5(ctx, c):
     n_eval = 0
     for sw, kind in (("to_bin", "BINARY"), ("to_cas", "CASSETTE"), ("to_dsk", "DISK")):
         for pname in ("PROG", None):
-            for cname in (None, "cli"):
+            for cname in (None, "cli", ""):
                 for append in (False, True):
                     env = dict(ctx.env)
                     for cn in ("VirtualFile", "SourceFile", "Program", "CoCoFile"):
@@ -416,75 +449,78 @@ def cli5(ctx, c):
                                 "args.name": cname, "args.append": append, "args.width": None})
                     env["args.%s" % sw] = "target.img"
                     events, notes = [], []
-                    end = run_concrete(body_without_doc(flat), env, events, notes, hooks={("new", "Program"): {"name": pname}})
+                    funcs = {n_: f_.node for n_, f_ in fn0.module.funcs.items() if n_ not in ("main", "parse_arguments")} if hasattr(fn0.module, "funcs") else {}
+                    end = run_concrete(body_without_doc(flat), env, events, notes, hooks={("new", "Program"): {"name": pname}}, functions=funcs)
                     n_eval += 1
                     eff = pname or cname
-                    site = "assembler --%s%s%s%s" % (sw, " (NAM %s)" % pname if pname else " (no NAM)", " --name %s" % cname if cname else "", " --append" if append else "")
+                    site = "assembler --%s%s%s%s" % (sw, " (NAM %s)" % pname if pname else " (no NAM)", (" --name %r" % cname) if cname is not None else "", " --append" if append else "")
                     problems = []
                     files = [e[3] for e in events if e[0] == "new" and e[1] == "CoCoFile"]
                     vfs = [e[3] for e in events if e[0] == "new" and e[1] == "VirtualFile"]
                     target = next((o for o in vfs if any(isinstance(a, Obj) and "target.img" in getattr(a, "args", []) for a in getattr(o, "args", []))), None)
                     if end and end.startswith("raise"):
-                        problems.append("the run ends in %s" % end)
+                        problems.append(("sequence", "the run ends in %s" % end))
                     if len(files) != 1:
-                        problems.append("%d CoCoFile objects are built" % len(files))
+                        problems.append(("file", "%d CoCoFile objects are built" % len(files)))
                     else:
                         f = files[0]
                         a = f.attrs
                         if a.get("name") != eff:
-                            problems.append("the file is named %r; NAM gives %r and --name %r" % (a.get("name"), pname, cname))
+                            problems.append(("file", "the file is named %r; NAM gives %r and --name %r" % (a.get("name"), pname, cname)))
                         prog = "<Program object>"
                         if show(a.get("load_addr")) != prog + ".origin":
-                            problems.append("load address is %s, not the program's origin" % show(a.get("load_addr")))
+                            problems.append(("file", "load address is %s, not the program's origin" % show(a.get("load_addr"))))
                         if show(a.get("exec_addr")) not in (prog + ".origin", prog + ".exec_addr", prog + ".entry"):
-                            problems.append("entry address is %s, not the program's origin / END address" % show(a.get("exec_addr")))
+                            problems.append(("file", "entry address is %s, not the program's origin / END address" % show(a.get("exec_addr"))))
                         if show(a.get("data")) != prog + ".get_binary_array()":
-                            problems.append("data is %s, not the assembled image" % show(a.get("data")))
+                            problems.append(("file", "data is %s, not the assembled image" % show(a.get("data"))))
                         if show(a.get("type")) not in ("NumericValue(2)",):
-                            problems.append("file type is %s, a machine-language file is type 2" % show(a.get("type")))
+                            problems.append(("file", "file type is %s, a machine-language file is type 2" % show(a.get("type"))))
                         if show(a.get("data_type")) not in ("NumericValue(0)",):
-                            problems.append("data type is %s, binary is 0" % show(a.get("data_type")))
+                            problems.append(("file", "data type is %s, binary is 0" % show(a.get("data_type"))))
                     # the source named on the command line is read, and what was read is what is assembled
                     src = next((e[3] for e in events if e[0] == "new" and e[1] == "SourceFile" and "x.asm" in getattr(e[3], "args", [])), None)
                     reads = [i for i, e in enumerate(events) if e[0] == "call" and len(e) > 6 and e[6] is src and e[2] == "read_file"]
                     procs = [i for i, e in enumerate(events) if e[0] == "call" and e[1] == "<Program object>" and e[2] == "process"]
                     if src is None:
-                        problems.append("no SourceFile is built on the file named on the command line")
+                        problems.append(("source", "no SourceFile is built on the file named on the command line"))
                     elif not procs:
-                        problems.append("the program is never processed")
+                        problems.append(("source", "the program is never processed"))
                     elif not reads or reads[0] > procs[0]:
-                        problems.append("the source file is not read before it is assembled")
+                        problems.append(("source", "the source file is not read before it is assembled"))
                     elif events[procs[0]][3] != ["<SourceFile object>.get_buffer()"]:
-                        problems.append("Program.process receives %s, not the lines read from the source file" % events[procs[0]][3])
+                        problems.append(("source", "Program.process receives %s, not the lines read from the source file" % events[procs[0]][3]))
                     expect_target = (kind == "BINARY") or bool(eff)
                     if not expect_target:
                         if vfs:
-                            problems.append("a %s container is built although the program has no name" % kind)
+                            problems.append(("guard", "a %s container is built although the program has no name" % kind))
                     elif target is None:
-                        problems.append("no VirtualFile is built on the path given with --%s" % sw)
+                        problems.append(("kind", "no VirtualFile is built on the path given with --%s" % sw))
                     else:
                         kinds_all = [ctx.env.get("VirtualFileType.%s" % k) for k in KINDS]
                         got_kind = [v for v in list(getattr(target, "args", [])) + list(target.attrs.values()) if v in kinds_all and v is not None]
                         if got_kind[:1] != [ctx.env.get("VirtualFileType.%s" % kind)]:
-                            problems.append("the target of --%s is built as container kind %s" % (sw, got_kind[:1]))
+                            problems.append(("kind", "the target of --%s is built as container kind %s" % (sw, got_kind[:1])))
                         seq = [e for e in events if e[0] == "call" and len(e) > 6 and e[6] is target]
                         meths = [e[2] for e in seq]
                         if meths != ["open_virtual_file", "add_coco_file", "save_virtual_file"]:
-                            problems.append("the target goes through %s; it must be opened, given the file, saved" % meths)
+                            problems.append(("sequence", "the target goes through %s; it must be opened, given the file, saved" % meths))
                         else:
                             if not (seq[1][4] and files and seq[1][4][0] is files[0]):
-                                problems.append("add_coco_file receives %s, not the file built from the program" % seq[1][3])
+                                problems.append(("sequence", "add_coco_file receives %s, not the file built from the program" % seq[1][3]))
                             am = seq[2][5].get("append_mode", seq[2][4][0] if seq[2][4] else None)
                             if am is not append:
-                                problems.append("save_virtual_file(append_mode=%r) with --append %s" % (am, "given" if append else "absent"))
+                                problems.append(("append", "save_virtual_file(append_mode=%r) with --append %s" % (am, "given" if append else "absent")))
                         if len(vfs) != 1:
-                            problems.append("%d containers are built for one output switch" % len(vfs))
+                            problems.append(("sequence", "%d containers are built for one output switch" % len(vfs)))
                     if not problems:
                         c.ok(site, "file from the program; %s" % ("%s target opened, file added, saved" % kind if expect_target else "no container without a name"), where)
                     elif notes:
-                        c.undecided(site, "not-evaluable", "%s; not evaluated: %s" % (problems[0][:80], "; ".join(sorted(set(notes)))[:100]), where)
+                        c.undecided(site, "not-evaluable", "%s; not evaluated: %s" % (problems[0][1][:80], "; ".join(sorted(set(notes)))[:100]), where)
                     else:
-                        c.finding("assembler --%s:%s" % (sw, "named" if eff else "unnamed"), problems[0][:120], "%s: %s" % (site, "; ".join(problems)), where)
+                        for aspect in sorted({a_ for a_, _ in problems}):
+                            texts = [t_ for a_, t_ in problems if a_ == aspect]
+                            c.finding("assembler --%s:%s:%s" % (sw, aspect, "named" if eff else "unnamed"), texts[0][:120], "%s: %s" % (site, "; ".join(texts)), where)
     c.ok("assembler.main", "%d configurations evaluated" % n_eval, where, nontrivial=False)
 
 
@@ -870,7 +906,7 @@ def vf4(ctx, c):
             c.check(plain or not used_zero, "open_virtual_file:kind-truthiness", "every container kind is truthy", "VirtualFileType(%s) has falsy member(s) %s" % (",".join(E.bases), used_zero),
                     "open_virtual_file tests `self.virtual_file_type and ...`; with VirtualFileType derived from %s the member(s) %s are falsy, so the kind-mismatch refusal is skipped for them"
                     % (",".join(E.bases), used_zero), where)
-    if mism:
+    if mism and table_verdict is None:
         t = g.nodes[mism[0]][2]
         form = isinstance(t, ast.BoolOp) and isinstance(t.op, ast.And) and len(t.values) == 2 and U(t.values[0]) == "self.virtual_file_type" and \
             re.fullmatch(r"self\.virtual_file_type != (\w+)", U(t.values[1])) is not None
@@ -998,8 +1034,11 @@ def vf3(ctx, c):
                 saves = [x for a, x in seq if a == "save_virtual_file"]
                 good = names[:1] == ["open_virtual_file"] and names.count("open_virtual_file") == 1 and len(saves) == 1 and names[-1] == "save_virtual_file" and \
                     all(a in ("open_virtual_file", "add_coco_file", "save_virtual_file", "list_files") for a in names)
-                c.check(good, name + ":typestate", "open -> add* -> save", "calls %s" % names,
-                        "%s: the %s target goes through %s; it must be opened (which is what detects an existing file) before files are added and saved once" % (rel, switch, names), where)
+                if good:
+                    c.ok(name + ":typestate", "open -> add* -> save", where)
+                else:
+                    # the statement-level reading does not see through helpers that return the container; CLI-4 / CLI-5 decide the sequence by evaluation
+                    c.undecided(name + ":typestate", "call-sequence-not-in-one-block", "calls %s" % names, where)
                 opens = [x for a, x in seq if a == "open_virtual_file"]
                 for st in blk[blk.index(site) + 1:]:
                     if opens and any(x is opens[0] for x in ast.walk(st)):
@@ -1050,7 +1089,20 @@ def cli1(ctx, c):
     want = {"name": "%s.name or args.name" % prog, "load_addr": "%s.origin" % prog, "exec_addr": "%s.origin" % prog, "data": "%s.get_binary_array()" % prog}
     from ..consteval import fold, NotConst
     knodes = {k.arg: k.value for k in cf[0].value.keywords}
-    for k, v in want.items():
+    # the fields of the file are decided by CLI-5 (evaluation of main per configuration) whenever that evaluation is complete; the statement-level
+    # reading below is the fallback
+    from ..report import Collector as _Col, UNDECIDED as _UND
+    sub5 = ctx.cache.get(("rule", "CLI-5"))
+    if sub5 is None:
+        sub5 = _Col("CLI-5")
+        try:
+            cli5(ctx, sub5)
+        except Exception:
+            sub5 = None
+    by_evaluation = sub5 is not None and sub5.insts and all(i.verdict != _UND for i in sub5.insts)
+    if by_evaluation:
+        c.ok("assembler.main:CoCoFile", "fields decided by evaluation (CLI-5)", repo.loc(fn, cf[0]), nontrivial=False)
+    for k, v in (want.items() if not by_evaluation else []):
         if k not in kw:
             c.undecided("assembler.main:CoCoFile.%s" % k, "keyword-not-passed", "", repo.loc(fn, cf[0]))
             continue
@@ -1072,7 +1124,7 @@ def cli1(ctx, c):
             c.finding("assembler.main:CoCoFile.%s" % k, "%s = %s" % (k, kw.get(k)), "assembler.py builds the saved file with %s=%s; it must be %s" % (k, kw.get(k), v), repo.loc(fn, cf[0]))
         else:
             c.undecided("assembler.main:CoCoFile.%s" % k, "expression-not-recognised", kw.get(k), repo.loc(fn, cf[0]))
-    for k, v in (("type", 0x02), ("data_type", 0x00)):
+    for k, v in ((("type", 0x02), ("data_type", 0x00)) if not by_evaluation else ()):
         node = next((x.value for x in cf[0].value.keywords if x.arg == k), None)
         val = try_fold(node.args[0], ctx.env) if isinstance(node, ast.Call) and U(node.func) == "NumericValue" and node.args else None
         if val is None:
